@@ -928,7 +928,7 @@ def gen_pr_history(rng):
     for _ in range(rng.randrange(3, 7)):
         r = rng.random()
         if r < 0.45:
-            kind = rng.choice(['S', 'S', 'H'])       # not `h`: Stream.h raises AttributeError with an EOS mixture (fixes_proposed/C02-6.md)
+            kind = rng.choice(['S', 'S', 'H', 'h'])
             tgt = rng.choice(pool + [recv])
             ops.append(f'set {tgt} {kind} lerp {r6(rng.uniform(0.2, 0.8))}' if rng.random() < 0.7 else f'set {tgt} {kind} cur 0')
         else:
